@@ -27,6 +27,8 @@ Definition run (line : list N) : list N :=
                                     | Some s => match binary s with Some v => r_ok (prz v) | None => r_err $"parse" end
                                     | None => r_badcase end
       else if str_eqb f $"sort" then match pl a with Some l => r_ok (prl (sort l)) | None => r_badcase end
+      else if str_eqb f $"clone" then match pl a with Some l => r_ok (prl (clone l)) | None => r_badcase end
+      else if str_eqb f $"vnew" then match parse_nat a with Some n => r_ok (prl (vnew n)) | None => r_badcase end
       else if str_eqb f $"unique" then match pl a with Some l => r_ok (prl (unique l)) | None => r_badcase end
       else r_badcase
   | [f; a; b] =>
@@ -39,12 +41,16 @@ Definition run (line : list N) : list N :=
       else if str_eqb f $"containssorted" then match pz a, pl b with Some x, Some l => r_ok (print_bool (contains_sorted x l)) | _, _ => r_badcase end
       else if str_eqb f $"insert" then match pl a, pz b with Some l, Some x => r_ok (prl (insert_sorted_unique l x)) | _, _ => r_badcase end
       else if str_eqb f $"merge" then match pl a, pl b with Some l, Some m => r_ok (prl (merge_unique l m)) | _, _ => r_badcase end
+      else if str_eqb f $"concat" then match pl a, pl b with Some l, Some m => r_ok (prl (concat l m)) | _, _ => r_badcase end
       else if str_eqb f $"vadd" then match pl a, pl b with Some l, Some m => print_outcome prl (vadd l m) | _, _ => r_badcase end
       else if str_eqb f $"vlsh" then match pl a, parse_decN b with Some l, Some s => r_ok (prl (vlsh l s)) | _, _ => r_badcase end
       else if str_eqb f $"basis" then match parse_nat a, parse_nat b with Some n, Some i => r_ok (prl (basis n i)) | _, _ => r_badcase end
       else r_badcase
   | [f; a; b; c] =>
-      if str_eqb f $"extract" then match pz a, parse_decN b, parse_decN c with
+      if str_eqb f $"basisidx" then match parse_nat a, parse_nat b, parse_nat c with
+                                   | Some n, Some i, Some j => print_outcome prz (basis_idx n i j)
+                                   | _, _, _ => r_badcase end
+      else if str_eqb f $"extract" then match pz a, parse_decN b, parse_decN c with
                                    | Some x, Some l, Some h => r_ok (prz (extract x l h))
                                    | _, _, _ => r_badcase end
       else r_badcase
